@@ -272,21 +272,6 @@ theorem C16_registry_finish (s s' : MSt) (i : Nat) (h : step s (.dlFinish i) = s
 
 /-! ### non-vacuity -/
 
-def runL (s : MSt) : List MLabel → Option MSt
-  | [] => some s
-  | l :: ls => match step s l with
-    | some s' => runL s' ls
-    | none => none
-
-theorem reach_runL (s : MSt) (ls : List MLabel) (s' : MSt) (hs : Reach s) (h : runL s ls = some s') : Reach s' := by
-  induction ls generalizing s with
-  | nil => simp only [runL, Option.some.injEq] at h; exact h ▸ hs
-  | cons l ls ih =>
-    simp only [runL] at h
-    split at h
-    · rename_i s1 h1; exact ih s1 (Reach.step l hs h1) h
-    · cases h
-
 /-- two concurrent downloaders of block 7; the second finishes first without error, the request is
     completed, the first is cancelled and fails later; then a second request is aborted. -/
 def exMgr : List MLabel :=
